@@ -21,16 +21,16 @@ for f in m.get('demo_files',[]):
         os.makedirs(os.path.dirname(f) or '.',exist_ok=True); shutil.copy(src,f)
 PY
 echo "== unchanged tree: demo (expect PASS)"
-bash -c "$demo_cmd" > /tmp/seedv.clean.log 2>&1; rc_clean=$?
-tail -3 /tmp/seedv.clean.log
+bash -c "$demo_cmd" > /tmp/seedv/$(basename $wt).clean.log 2>&1; rc_clean=$?
+tail -3 /tmp/seedv/$(basename $wt).clean.log
 git apply _seed/patch.diff || { echo "PATCH DOES NOT APPLY"; exit 1; }
 echo "== changed tree: build"
-go build ./... > /tmp/seedv.build.log 2>&1; rc_build=$?
+go build ./... > /tmp/seedv/$(basename $wt).build.log 2>&1; rc_build=$?
 echo "== changed tree: existing tests of touched packages (demo tests skipped by -skip 'Seed|Demo')"
-go test $touched -count=1 -skip 'Seed|Demo' > /tmp/seedv.tests.log 2>&1; rc_tests=$?
-grep -v "^ok\|no test files" /tmp/seedv.tests.log | head -5
+go test $touched -count=1 -skip 'Seed|Demo' > /tmp/seedv/$(basename $wt).tests.log 2>&1; rc_tests=$?
+grep -v "^ok\|no test files" /tmp/seedv/$(basename $wt).tests.log | head -5
 echo "== changed tree: demo (expect FAIL)"
-bash -c "$demo_cmd" > /tmp/seedv.mut.log 2>&1; rc_mut=$?
-tail -3 /tmp/seedv.mut.log
+bash -c "$demo_cmd" > /tmp/seedv/$(basename $wt).mut.log 2>&1; rc_mut=$?
+tail -3 /tmp/seedv/$(basename $wt).mut.log
 git checkout -q -- .
 echo "RESULT clean_demo_rc=$rc_clean build_rc=$rc_build tests_rc=$rc_tests mutated_demo_rc=$rc_mut"
